@@ -244,13 +244,26 @@ def filter_rules(ctx: Ctx, only=None) -> None:
                   message="", file=fi.file, node=g)
     for c, g in nxt:
         t = g.test
-        ok = isinstance(t, ast.Compare) and isinstance(t.ops[0], ast.Gt)
-        if ok:
-            nz = Normaliser()
-            nz.run_block([s for s in _block_of(g) if s.lineno < g.lineno])
-            l, r = nz.norm(t.left), nz.norm(t.comparators[0])
-            # left = end + value - (end - start) = start + value ; right = next onset
-            ok = any(a.endswith("[0].time") for a in r.atoms()) and len(r.terms) == 1
+        from ..linear import relation, same_relation
+        nz = Normaliser()
+        chain_ = [a for a in ancestors(g) if isinstance(a, (ast.For, ast.While, ast.If, ast.FunctionDef))]
+        pre_ = []
+        for a in [g] + chain_:
+            pre_ = [s for s in _block_of(a) if isinstance(s, (ast.Assign, ast.AugAssign)) and s.lineno < a.lineno] + pre_
+        nz.run_block(pre_)
+        rr = relation(t, nz)
+        ok = False
+        if rr is not None:
+            d, op = rr
+            # after substitution: (own start + candidate value) - next onset > 0, in either orientation
+            times = [a for a in d.atoms() if a.endswith("[0].time")]
+            others = [a for a in d.atoms() if not a.endswith(".time")]
+            if len(times) == 2 and len(others) == 1 and len(d.terms) == 3:
+                cv = d.terms.get(((others[0], 1),))
+                own = [a for a in times if d.terms.get(((a, 1),)) == cv]
+                nxt_ = [a for a in times if d.terms.get(((a, 1),)) == -cv] if cv is not None else []
+                if len(own) == 1 and len(nxt_) == 1:
+                    ok = same_relation(rr, Sym.atom(own[0]) + Sym.atom(others[0]) - Sym.atom(nxt_[0]), ">")
         ctx.check(ok, "NEXT", f"{FN}: a value is discarded iff the note would run past the next onset of its pitch", function=FN,
                   construct="fit test against the next note is not `end + correction > next onset`",
                   message=f"`{short(t, 90)}`", file=fi.file, node=g)
